@@ -72,6 +72,12 @@ extern "C" int h_race(void) {
     void* p0 = pool.Malloc(s0);            // arbitrary reachable fill state of the head chunk (untracked)
     verif_track_mode(2);
     size_t steps = verif_param(1);
+    if (verif_is_replay()) {
+      // native replay: two real threads allocate from the one pool concurrently (built with -fsanitize=thread)
+      auto work = [&] { void* l = nullptr; size_t ln = 0; for (int i = 0; i < 3000; i++) { size_t n = 1 + (i * 7) % 90; if (i & 1) { l = pool.Realloc(l, ln, n); } else { l = pool.Malloc(n); } ln = n; if (l) memset(l, 1, n); } };
+      std::thread t1(work), t2(work); t1.join(); t2.join();
+      return 2;
+    }
     void* last = p0; size_t lastn = s0;
     for (size_t i = 0; i < steps; i++) {
       size_t op = verif_concrete(verif_range(0, 1, "op"));
@@ -85,6 +91,20 @@ extern "C" int h_race(void) {
   if (scen == 3) {
     // numbers chosen to take every text->double path: exact fast path, Eisel-Lemire, and the big-decimal fallback (subnormal, >19 digits)
     static const char kText[] = "{\"a\":1,\"b\":[true,\"s\",2.5e3,4.9e-324,1.7976931348623157e308,0.1234567890123456789012345,1e-400],\"c\":{\"d\":null}}";
+    auto body = [&]() {
+      sonic_json::Document d; d.Parse(kText, sizeof(kText) - 1);
+      auto& a = d.GetAllocator();
+      sonic_json::Node v; v.SetString(StringView("val", 3), a);
+      d.AddMember("k", std::move(v), a);
+      d["b"].PushBack(sonic_json::Node(7.5), a);
+      sonic_json::WriteBuffer wb; d.Serialize(wb);
+    };
+    if (verif_is_replay()) {
+      std::thread t1([&] { for (int i = 0; i < 500; i++) body(); });
+      std::thread t2([&] { for (int i = 0; i < 500; i++) body(); });
+      t1.join(); t2.join();
+      return 3;
+    }
     for (int round = 0; round < 2; round++) {
       if (round == 1) verif_track_begin(3);
       sonic_json::Document d; d.Parse(kText, sizeof(kText) - 1);
